@@ -219,8 +219,10 @@ def mirror_descr_tx(kind: int, dv: int, sv: int, mv: int, csv: int, val: str, se
     4 delete a leaf metric, 5 delete the vmd subtree, 6 update of a context descriptor (its states are re-versioned),
     7 create a channel with a child metric in one transaction, 8 create TWO children under one existing parent (the parent is
     bumped twice), 9 update the parent and create a child under it, 10 delete two children of one parent, 11 create a child
-    and then update the parent (reverse order)).
-    pre: 0 <= kind <= 11
+    and then update the parent (reverse order), 12 ENTITY write of a context descriptor: descriptor updated AND a context state
+    the consumer does not know yet created in the same transaction, 13 update of a context descriptor + add_state of a new
+    context state through the transaction, 14 entity write of a metric: descriptor and nested state member).
+    pre: 0 <= kind <= 14
     pre: dv >= 0
     pre: sv >= 0
     pre: mv >= 0
@@ -231,10 +233,25 @@ def mirror_descr_tx(kind: int, dv: int, sv: int, mv: int, csv: int, val: str, se
     """
     orc = Oracle()
     try:
-        target = {0: 'ac0', 1: 'asig0', 2: 'm0', 3: 'ch0', 4: 'm1', 5: 'vmd0', 6: 'lc0', 7: 'vmd0'}.get(kind, 'ch0')
+        target = {0: 'ac0', 1: 'asig0', 2: 'm0', 3: 'ch0', 4: 'm1', 5: 'vmd0', 6: 'lc0', 7: 'vmd0', 12: 'pc0', 13: 'lc0',
+                  14: 'm0'}.get(kind, 'ch0')
         pm, cap, cm = _pair(dv, sv, mv, csv, target)
         notes = Notes(cm)
         exp_new, exp_upd, exp_del = [], [], []
+        ent = None
+        if kind == 12:
+            ent = pm.entities.by_handle('pc0')
+            ent.descriptor.SafetyClassification = pm_types.SafetyClassification.MED_A
+            ns = ent.new_state('pcs9')
+            ns.ContextAssociation = CA.ASSOCIATED if sel else CA.NO_ASSOCIATION
+            ns.CoreData = pm_types.PatientDemographicsCoreData()
+            ns.CoreData.Givenname = val
+            ent.states['pcs0'].ContextAssociation = CA.DISASSOCIATED
+        elif kind == 14:
+            ent = pm.entities.by_handle('m0')
+            ent.descriptor.Type = pm_types.CodedValue(val or 'c')
+            ent.state.mk_metric_value()
+            ent.state.MetricValue.Value = val
         with pm.descriptor_transaction() as tr:
             if kind == 0:
                 d = tr.get_descriptor('ac0')
@@ -273,6 +290,17 @@ def mirror_descr_tx(kind: int, dv: int, sv: int, mv: int, csv: int, val: str, se
                 d = tr.get_descriptor('lc0')
                 d.SafetyClassification = pick(sel, (pm_types.SafetyClassification.INF, pm_types.SafetyClassification.MED_A,
                                                     pm_types.SafetyClassification.MED_B))
+                exp_upd = ['lc0']
+            elif kind in (12, 14):
+                tr.write_entity(ent)
+                exp_upd = [ent.handle]
+            elif kind == 13:
+                d = tr.get_descriptor('lc0')
+                d.SafetyClassification = pm_types.SafetyClassification.MED_B
+                ns = k.mk_context_state(pm, d, 'lcs9', pick(sel, (CA.ASSOCIATED, CA.NO_ASSOCIATION, CA.PRE_ASSOCIATION)), binding=None)
+                ns.descriptor_container = None
+                ns.LocationDetail.Bed = val
+                tr.add_state(ns)
                 exp_upd = ['lc0']
             elif kind in (8, 9, 11):
                 def _mk_metric(handle):
